@@ -40,7 +40,7 @@ ASSUMPTIONS = [
 ]
 REQUIRED = {"all": ["figures", "saved_files", "getfig_returns", "phase_markers_checked", "uversky_markers_checked",
                     "multi_marker_figures", "labels_checked", "limits_below_one", "region_points_checked",
-                    "linear_bar_figures", "long_linear_plots", "net_negative_uversky_saves", "complexity_bar_figures", "numpy_coordinate_arguments", "coincident_markers", "near_threshold_large_N_cases", "figures_after_unclosed_save"]}
+                    "linear_bar_figures", "long_linear_plots", "net_negative_uversky_saves", "complexity_bar_figures", "numpy_coordinate_arguments", "coincident_markers", "near_threshold_large_N_cases", "figures_after_unclosed_save", "tiny_linear_plots"]}
 NFIG = {"quick": 640, "thorough": 4000}
 NMAX = {"quick": 40, "thorough": 90}
 LIMS = [1, 1, 0.5, 0.8, 2]
@@ -205,7 +205,9 @@ def rand_args(rng, multi=None):
             if rng.random() < 0.3:
                 label[0] = rng.choice(["\u03b1-syn", "A\u03b242", "prot\u00e9ine \u2116 1"])
     if rng.random() < 0.5:
-        kw["title"] = rng.choice(["T", "My title", "Diagram", "", "\u03b1-synuclein vs. A\u03b2", "Diagramme d'\u00e9tats"])
+        kw["title"] = rng.choice(["T", "My title", "Diagram", "", "\u03b1-synuclein vs. A\u03b2", "Diagramme d'\u00e9tats",
+                                  "A rather long title that describes the forty-two constructs of this study in quite some detail",
+                                  "two lines:\nwild type and mutants", "tab\tseparated title"])
     if rng.random() < 0.4:
         kw["legendOn"] = rng.choice([True, False])
     if rng.random() < 0.5:
@@ -402,6 +404,9 @@ def judge_figure(case, rep, S):
             if rng.random() < 0.5:
                 seq = (seq * 2)[:rng.choice([219, 220, 221, 250])]
             rep.cnt("long_linear_plots")
+        if rng.random() < 0.15:
+            seq = gen.rand_seq(rng, "polyampholyte", lo=1, hi=3)[:rng.randint(1, 3)]      # one to three residues
+            rep.cnt("tiny_linear_plots")
         o = SP(seq)
         w = rng.choice([x for x in (1, 2, 5, 6, 10) if x <= len(seq)])        # only windows the sequence can hold
         getter = {"NCPR": "get_linear_NCPR", "FCR": "get_linear_FCR", "Sigma": "get_linear_sigma", "Hydropathy": "get_linear_hydropathy"}[which]
